@@ -1,6 +1,7 @@
 import OsmVerif.Oracle.Util
 import OsmVerif.Model.Pbf
 import OsmVerif.Model.PbfScan
+import OsmVerif.Model.PbfOffsets
 /-! Parser of the structured-file tokens and printer of scanned objects (the same text the harness prints). -/
 namespace OsmVerif.Oracle.Pbf
 open OsmVerif.Oracle OsmVerif.Model.Pbf OsmVerif.Model.PbfScan
@@ -261,12 +262,43 @@ def scanPrefix (ru : Reuses) (s : Select) : List Block → List Obj × Bool
 def handleC08 (toks : List String) : String :=
   match toks with
   | "filt" :: _procs :: skip :: fN :: fW :: fR :: file =>
-    match parseFile file, selectOf skip fN fW fR, reuses with
-    | some f, some sel, some ru =>
-      let (objs, ok) := scanPrefix ru sel (f.blocks.map (·.block))
+    match parseFile file, selectOf skip fN fW fR with
+    | some f, some sel =>
+      -- the specification: the reuse discipline of `specReuses` (the theorems tie the source to it)
+      let (objs, ok) := scanPrefix specReuses sel (f.blocks.map (·.block))
       showScan (showHeader f.header) objs ok
-    | _, _, none => "model-undefined"
-    | _, _, _ => "bad-op"
+    | _, _ => "bad-op"
+  | _ => "bad-op"
+
+/-! ### C09: reported offsets -/
+
+def parseSizes (s : String) : Option (List (Nat × Nat)) :=
+  if s = "S=" then some [] else
+  ((s.drop 2).toString.splitOn ",").mapM fun p =>
+    match p.splitOn ":" with
+    | [h, b] => match h.toNat?, b.toNat? with
+      | some h, some b => some (h, b)
+      | _, _ => none
+    | _ => none
+
+def handleC09 (toks : List String) : String :=
+  match toks with
+  | "offs" :: _procs :: skip :: sizes :: file =>
+    match parseFile file, selectOf skip "all" "all" "all", some specReuses, parseSizes sizes with
+    | some f, some sel, some ru, some sz =>
+      let nh := if f.header.isSome then 1 else 0
+      if sz.length ≠ f.blocks.length + nh then "bad-op" else
+      let hdr : Option (OsmVerif.Model.PbfOffsets.Frame Obj) := if f.header.isSome then (sz.head?.map fun (h, b) => { hlen := h, blen := b, objs := [] }) else none
+      let frames : Option (List (OsmVerif.Model.PbfOffsets.Frame Obj)) := ((f.blocks.map (·.block)).zip (sz.drop nh)).mapM fun (b, (h, bl)) =>
+        (scanBlock ru sel b).map fun os => { hlen := h, blen := bl, objs := os }
+      match frames with
+      | none => "model-undefined"
+      | some frames =>
+        match OsmVerif.Model.PbfOffsets.scanTrace OsmVerif.Model.PbfOffsets.specRules hdr frames with
+        | none => "model-undefined"
+        | some tr => " ".intercalate (s!"n={tr.length}" :: tr.map fun (_, c, p) => s!"{c}/{p}")
+    | _, _, none, _ => "model-undefined"
+    | _, _, _, _ => "bad-op"
   | _ => "bad-op"
 
 end OsmVerif.Oracle.Pbf
